@@ -20,6 +20,7 @@ Why(e) ==
     [] e.ev = "SweepEnd" -> IF next = e.days THEN <<>> ELSE <<"Sweep covered", next, "of", e.days>>
     [] e.ev = "WholeDay" -> IF e.badSeconds = 0 /\ CivilFromDays(e.d) = <<e.y, e.m, e.day>> THEN <<>> ELSE <<"WholeDay", e.d, e.badSeconds>>
     [] e.ev = "Text" -> IF e.text = Text(e.d, e.sod) THEN <<>> ELSE <<"Text", e.user, e.d, e.sod, e.text>>
+    [] e.ev = "FileName" -> IF FileNameOk(e) THEN <<>> ELSE <<"FileName", e.text, e.bd, e.bs>>
     [] e.ev = "Add" -> IF ~e.panic /\ e.out = AddOut(e.start, e.dd, e.ds) THEN <<>> ELSE <<"Add", e.start, e.dd, e.ds, "got", e.out, "expected", AddOut(e.start, e.dd, e.ds)>>
     [] OTHER -> <<>>
 TInit == l = 1 /\ bad = {} /\ nvalid = 0 /\ next = 0
